@@ -722,6 +722,8 @@ func exec(t []string) string {
 			keys[i] = &assocKeys{c2s: unhex(a[:j]), s2c: unhex(a[j+1:])}
 		}
 		return hist(ps, keys)
+	case t[0] == "ip.ident":
+		return identExec(t[1:])
 	case t[0] == "ip.seq" && len(t) == 3:
 		if t[2] != "nts=0" {
 			return "bad-op"
@@ -768,6 +770,12 @@ func ntsDecodes(payload []byte) bool {
 
 func gen(c *lib.Ctx) {
 	r := c.Rand
+	if identOnly() {
+		// property C06 runs only the client-identity histories of this harness
+		genIdent(c, c.Rand.Fork("ident"), c.Scale(150, 1500))
+		return
+	}
+	defer genIdent(c, c.Rand.Fork("ident"), c.Scale(40, 400))
 
 	// ---- (a) in-process ---------------------------------------------------------------
 	c.Comment("ValidateRequest: all 256 first bytes x source ports")
